@@ -4,7 +4,7 @@
     optimised tree or on the analysis at all. *)
 From PegV Require Import Base.Tac Spec.Syntax Spec.Peg Spec.WF Model.Machine Model.SkipCheck Model.Analyses Model.Optimize Model.Gen
   Model.Emit Model.SEmit Model.Exec Proofs.PegFacts Proofs.OptSound Proofs.OptSwok Proofs.Top Proofs.OptTop Proofs.SEmitFile Proofs.SEmitOpt
-  Proofs.EmitUse Proofs.DeepDefault Proofs.CountInline.
+  Proofs.EmitUse Proofs.DeepDefault Proofs.CountInline Proofs.ExecDet.
 Local Open Scope nat_scope.
 
 Lemma names_opt T : forall e r, In r (names_of (opt T e)) -> In r (names_of e).
@@ -128,3 +128,77 @@ Proof.
       as (st' & Eo & _ & P). cbn [fst] in *. eauto.
 Qed.
 Print Assumptions generated_code_noast_switch_all_options.
+
+(** * Termination at the level of the generated statements
+
+    For a grammar with a well-formedness certificate the entry function of the generated file HAS an execution, on every
+    input and from every earlier parser state; that execution returns (it does not crash) and it is the only one.  The
+    reference semantics is total on such grammars (Ford, Proofs/Total.v), the statements implement it
+    ([generated_code_is_peg]) and the goto semantics is deterministic (Proofs/ExecDet.v). *)
+Theorem generated_code_terminates g tab rank :
+  wf_b g tab rank = true -> good_grammar g -> good_switches g -> grammar_alt2 g -> closed_names g ->
+  forall ptx buf penv, good_buf buf ->
+  forall memo inline r rb st0,
+    nth_error g r = Some rb -> rb <> RNil -> slot_ok g inline r -> reached (count_rules g) r = true ->
+    exists b st', xcall buf penv (mk_opts true memo inline g) (gen_fn g ptx inline) r (reset st0) (Ret b st') /\
+      forall res, xcall buf penv (mk_opts true memo inline g) (gen_fn g ptx inline) r (reset st0) res -> res = Ret b st'.
+Proof.
+  intros Hwf Hg Hs Ha Hc ptx buf penv Hb memo inline r rb st0 Hr Hn Hsl Hre.
+  destruct (c01_total g ptx buf penv tab rank r rb Hwf Hr Hn) as (n & rr & H).
+  destruct n as [|n]; [discriminate|].
+  destruct (generated_code_is_peg g ptx buf penv Hg Hb Hs memo inline n r st0 rr (deep_table_all g inline Ha Hc) Hsl Hre H) as (res & Hx & K).
+  assert (E : exists b st', res = Ret b st').
+  { destruct rr as [[|p f] evs]; [destruct K as (st' & -> & _)|destruct K as (st' & -> & _)]; eauto. }
+  destruct E as (b & st' & ->). exists b, st'. split; [exact Hx|].
+  intros res' Hx'. exact (xcall_det _ _ _ _ _ _ _ _ Hx' Hx).
+Qed.
+Print Assumptions generated_code_terminates.
+
+(** ... and so does the file generated from the optimised tree (-switch) *)
+Theorem generated_code_switch_terminates g tab rank :
+  wf_b g tab rank = true -> good_grammar g ->
+  (forall r b, nth_error g r = Some (RBody b) -> ranges_ok b = true) ->
+  grammar_alt2 g -> closed_names g ->
+  forall ptx buf penv, good_buf buf -> valid_buf buf ->
+  forall memo inline r rb st0,
+    nth_error g r = Some rb -> rb <> RNil ->
+    slot_ok (optimize g) inline r -> reached (count_rules (optimize g)) r = true ->
+    exists b st', xcall buf penv (mk_opts true memo inline (optimize g)) (gen_fn (optimize g) ptx inline) r (reset st0) (Ret b st') /\
+      forall res, xcall buf penv (mk_opts true memo inline (optimize g)) (gen_fn (optimize g) ptx inline) r (reset st0) res -> res = Ret b st'.
+Proof.
+  intros Hwf Hg Hro Ha Hc ptx buf penv Hbuf Hvalid memo inline r rb st0 Hr Hn Hsl Hre.
+  assert (P : exists n rr, peg_parse (optimize g) ptx buf penv (S n) r = Some rr).
+  { destruct (fs_table g) as [T st] eqn:E. destruct st.
+    - destruct (common_result g tab rank Hwf (stable_opt_ok g Hro T E) ptx buf penv Hvalid r rb Hr Hn) as (n & res & evs & evs' & H & H').
+      destruct n as [|n]; [discriminate|]. eauto.
+    - rewrite (optimize_unstable g T E).
+      destruct (c01_total g ptx buf penv tab rank r rb Hwf Hr Hn) as (n & rr & H). destruct n as [|n]; [discriminate|]. eauto. }
+  destruct P as (n & rr & H).
+  destruct (generated_code_is_peg (optimize g) ptx buf penv (optimize_good_grammar g tab rank Hwf Hg Hro) Hbuf (optimize_good_switches g tab rank Hwf Hro)
+              memo inline n r st0 rr (deep_table_optimize g inline Ha Hc) Hsl Hre H) as (res & Hx & K).
+  assert (E : exists b st', res = Ret b st').
+  { destruct rr as [[|p f] evs]; [destruct K as (st' & -> & _)|destruct K as (st' & -> & _)]; eauto. }
+  destruct E as (b & st' & ->). exists b, st'. split; [exact Hx|].
+  intros res' Hx'. exact (xcall_det _ _ _ _ _ _ _ _ Hx' Hx).
+Qed.
+Print Assumptions generated_code_switch_terminates.
+
+(** ... and the -noast file *)
+Theorem generated_code_noast_terminates g tab rank :
+  wf_b g tab rank = true -> good_grammar g -> good_switches g -> grammar_alt2 g -> closed_names g ->
+  forall ptx buf penv, good_buf buf ->
+  forall inline r rb st0,
+    (forall rb0, nth_error g ptx = Some rb0 -> rb0 = RNil) ->
+    nth_error g r = Some rb -> rb <> RNil ->
+    o_inline (mk_opts false false inline g) r = false -> reached (count_rules g) r = true ->
+    exists b st', xcall buf penv (mk_opts false false inline g) (gen_fn_noast g ptx inline) r (reset st0) (Ret b st') /\
+      forall res, xcall buf penv (mk_opts false false inline g) (gen_fn_noast g ptx inline) r (reset st0) res -> res = Ret b st'.
+Proof.
+  intros Hwf Hg Hs Ha Hc ptx buf penv Hb inline r rb st0 Hptx Hr Hn Hi Hre.
+  destruct (c01_total g ptx buf penv tab rank r rb Hwf Hr Hn) as (n & rr & H).
+  destruct n as [|n]; [discriminate|].
+  destruct (generated_code_noast g ptx buf penv Hg Hb Hs inline n r st0 rr Hptx (deep_table_all g inline Ha Hc) Hi Hre H) as (st' & Hx & _).
+  eexists _, st'. split; [exact Hx|].
+  intros res' Hx'. exact (xcall_det _ _ _ _ _ _ _ _ Hx' Hx).
+Qed.
+Print Assumptions generated_code_noast_terminates.
